@@ -122,6 +122,14 @@ func genPrograms(r *Rand, g *Gen, np int, allowFail bool, entries []string) []Op
 			if r.Bool() {
 				fm["title"] = fmt.Sprintf("FM Title p%d", p)
 			}
+			if r.Chance(25) {
+				// a map-valued key that the data (and, with the config feature, theme.yml) carries as a map too:
+				// front-matter replaces the value for this render, it must not be merged into the other map
+				fm["user"] = fmt.Sprintf("\n  name: fm-user-p%d\n  fmonly: only-p%d", p, p)
+				if g.on("config") {
+					fm["palette"] = fmt.Sprintf("\n  accent: \"#fm%04d\"", p)
+				}
+			}
 		}
 		if useLayouts && r.Chance(60) {
 			fm["layout"] = Pick(r, []string{"post", "plain"})
